@@ -576,6 +576,67 @@ func TestCheck(t *testing.T) {
 		bDistinct.Add(fmt.Sprintf("B2 %s/%s/%s@%d=%s", bc.Holder, bc.Waiter, bc.Event, bc.K, obs))
 	}
 
+	// ---------- Part C: byte ranges -> locks ----------
+	// Every byte range an fcntl request can name around the lock bytes maps to exactly the locks whose byte lies in it
+	// (the FUSE handlers translate a request with these two functions before they touch the mutexes).
+	cEvals := 0
+	{
+		type lockByte struct {
+			t litefs.LockType
+			b uint64
+		}
+		shm := []lockByte{}
+		for _, t := range []litefs.LockType{litefs.LockTypeWrite, litefs.LockTypeCkpt, litefs.LockTypeRecover, litefs.LockTypeRead0, litefs.LockTypeRead1, litefs.LockTypeRead2, litefs.LockTypeRead3, litefs.LockTypeRead4, litefs.LockTypeDMS} {
+			shm = append(shm, lockByte{t, uint64(t)})
+		}
+		dbl := []lockByte{{litefs.LockTypePending, uint64(litefs.LockTypePending)}, {litefs.LockTypeReserved, uint64(litefs.LockTypeReserved)}, {litefs.LockTypeShared, uint64(litefs.LockTypeShared)}}
+		expect := func(set []lockByte, start, end uint64) string {
+			var out []string
+			for _, l := range set {
+				if start <= l.b && l.b <= end {
+					out = append(out, l.t.String())
+				}
+			}
+			return strings.Join(out, ",")
+		}
+		str := func(ts []litefs.LockType) string {
+			var out []string
+			for _, t := range ts {
+				out = append(out, t.String())
+			}
+			return strings.Join(out, ",")
+		}
+		var shmPts []uint64
+		for b := uint64(116); b <= 132; b++ {
+			shmPts = append(shmPts, b)
+		}
+		shmPts = append(shmPts, 0, 1, 1<<31, ^uint64(0))
+		for _, a := range shmPts {
+			for _, b := range shmPts {
+				if b < a {
+					continue
+				}
+				cEvals++
+				if got, want := str(litefs.ParseSHMLockRange(a, b)), expect(shm, a, b); got != want {
+					run.Violation("C/shm-range", fmt.Sprintf("ParseSHMLockRange(%d,%d) = [%s], the bytes in that range are the locks [%s]", a, b, got, want), map[string]any{"part": "C", "start": a, "end": b})
+				}
+			}
+		}
+		p0 := uint64(litefs.LockTypePending)
+		dbPts := []uint64{0, p0 - 2, p0 - 1, p0, p0 + 1, p0 + 2, p0 + 3, p0 + 511, p0 + 512, ^uint64(0)}
+		for _, a := range dbPts {
+			for _, b := range dbPts {
+				if b < a {
+					continue
+				}
+				cEvals++
+				if got, want := str(litefs.ParseDatabaseLockRange(a, b)), expect(dbl, a, b); got != want {
+					run.Violation("C/db-range", fmt.Sprintf("ParseDatabaseLockRange(%#x,%#x) = [%s], the bytes in that range are the locks [%s]", a, b, got, want), map[string]any{"part": "C", "start": a, "end": b})
+				}
+			}
+		}
+	}
+
 	samples = append(samples, map[string]any{"part": "B", "blocking_cases": bEvals, "distinct_outcomes": bDistinct.Top(60)})
 	cov := map[string]any{
 		"states":                        states,
@@ -586,6 +647,7 @@ func TestCheck(t *testing.T) {
 		"distinct_outcomes":             outcomes.N(),
 		"blocking_cases":                bEvals,
 		"blocking_distinct_outcomes":    bDistinct.N(),
+		"byte_range_mappings":           cEvals,
 		"blocking_parts_skipped":        skipBlocking,
 		"samples":                       samples,
 		"rule":                          "Part A: BFS to closure over the implementation's private state key (sharedN, excl holder, 4 guard states); every one of the 20 alphabet operations is executed from every reachable state on a fresh RWMutex and compared with a POSIX one-byte lock model. Part B: every (holder kind, waiter kind, event, event time) combination of the blocking Lock/RLock on a synctest fake clock.",
